@@ -97,7 +97,7 @@ class Env:
         shutil.rmtree(self.w, ignore_errors=True)
 
 
-def one_run(sx, h_one, w, cfgtext, opts, uid=0, prep=None, calltimeout=2500, totaltimeout=6000, std_state=None, msglen=None, ncalls=1, stdin_pty=False, fsize=None, ctty=None):
+def one_run(sx, h_one, w, cfgtext, opts, uid=0, prep=None, calltimeout=2500, totaltimeout=6000, std_state=None, msglen=None, ncalls=1, stdin_pty=False, fsize=None, ctty=None, pending=None):
     env = Env(w)
     try:
         if prep:
@@ -109,7 +109,7 @@ def one_run(sx, h_one, w, cfgtext, opts, uid=0, prep=None, calltimeout=2500, tot
             open(res, 'w').close()
             os.chmod(res, 0o666)
             os.chmod(w, 0o777)
-        rep = X.run(sx, w, prefix=([HCTTY[0], ctty, '--'] if ctty else []), prog_argv=[h_one, ini, res, str(uid), str(ncalls), os.path.join(w, 'devlog')] + ([str(msglen)] if msglen else []), env=dict(H.san_env(w), VERIF_STD_STATE=std_state or '', **({'VERIF_STDIN_PTY': '1'} if stdin_pty else {}), **({'VERIF_RLIMIT_FSIZE': str(fsize)} if fsize is not None else {})), opts=list(opts) + ['--skipalloc', '--calltimeout', str(calltimeout), '--totaltimeout', str(totaltimeout)], timeout=totaltimeout / 1000 + 30)
+        rep = X.run(sx, w, prefix=([HCTTY[0], ctty, '--'] if ctty else []), prog_argv=[h_one, ini, res, str(uid), str(ncalls), os.path.join(w, 'devlog')] + ([str(msglen)] if msglen else []), env=dict(H.san_env(w), VERIF_STD_STATE=std_state or '', **({'VERIF_STDIN_PTY': '1'} if stdin_pty else {}), **({'VERIF_RLIMIT_FSIZE': str(fsize)} if fsize is not None else {}), **({'VERIF_PENDING': pending} if pending else {})), opts=list(opts) + ['--skipalloc', '--calltimeout', str(calltimeout), '--totaltimeout', str(totaltimeout)], timeout=totaltimeout / 1000 + 30)
         try:
             rep['result'] = json.load(open(res))
         except Exception:
@@ -367,14 +367,20 @@ def run(ck):
     for cname in ('devtty/default', 'file/allds'):
         states.append(('%s:controlling_tty_foreground' % cname, cfg[cname], 0, None, None, None, None, 'fg'))
         states.append(('%s:background_process_group_of_a_tostop_tty' % cname, cfg[cname], 0, None, None, None, None, 'bg_tostop'))
-    states = [s + (None,) * (8 - len(s)) for s in states]
-    st_res = pmap(lambda s: one_run(sx, v['h_one'], wdir(), s[1], [], uid=s[2], prep=s[3], std_state=s[4], msglen=s[5], fsize=s[6], ctty=s[7]), states)
+    # the caller has SIGPIPE / SIGXFSZ / SIGTTOU / SIGUSR1 blocked with one instance pending: they are the caller's, neither delivered nor swallowed
+    for cname in ('file/default', 'stdout/default', 'stderr/default', 'devtty/default', 'devnull/default'):
+        states.append(('%s:callers_blocked_signals_pending' % cname, cfg[cname], 0, None, None, None, None, None, '13,25,22,10'))
+    states.append(('file:/dev/full:callers_blocked_signals_pending', fcfg.replace('@W@/log', '/dev/full'), 0, None, None, None, None, None, '13,25,22,10'))
+    states = [s + (None,) * (9 - len(s)) for s in states]
+    st_res = pmap(lambda s: one_run(sx, v['h_one'], wdir(), s[1], [], uid=s[2], prep=s[3], std_state=s[4], msglen=s[5], fsize=s[6], ctty=s[7], pending=s[8]), states)
     for s, rep in zip(states, st_res):
         evals += 1
         b = verdict(rep)
+        if s[8] and not b and (rep.get('result') or {}).get('still_pending') != ''.join('%s.' % x for x in sorted(map(int, s[8].split(',')))):
+            b = ['callers_pending_signals_changed(%s)' % (rep.get('result') or {}).get('still_pending')]
         outcomes.add(('state', s[0], tuple(b)))
         if b and ('hang_or_spin' in b or any(x.startswith('blocked') for x in b)):
-            rep = one_run(sx, v['h_one'], wdir(), s[1], [], uid=s[2], prep=s[3], calltimeout=12000, totaltimeout=30000, std_state=s[4], msglen=s[5], fsize=s[6], ctty=s[7])
+            rep = one_run(sx, v['h_one'], wdir(), s[1], [], uid=s[2], prep=s[3], calltimeout=12000, totaltimeout=30000, std_state=s[4], msglen=s[5], fsize=s[6], ctty=s[7], pending=s[8])
             b = verdict(rep)
         if b:
             ck.violation('C03:%s:sink_state=%s' % ('+'.join(b), s[0]), {'state': s[0], 'config': s[1], 'uid': s[2], 'report': {k: rep.get(k) for k in ('signals', 'exit_code', 'term_sig', 'blocked_call', 'total_timeout', 'result')},
